@@ -173,6 +173,65 @@ theorem wordOK_funcName (f : Nat) : wordOK (funcName f) = true := by
       exact this _ h
     exact hall _ hmem
 
+/-! ### plain reference texts (A1 style) are always `nameSafe` -/
+
+theorem mem_splitOn (sep : Char) : ∀ (t : Text) (c : Char), c ∈ t → c ≠ sep → c ∈ (splitOn sep t).flatten
+  | [], _, h, _ => by simp at h
+  | d :: r, c, h, hc => by
+    unfold splitOn
+    by_cases hd : d = sep
+    · simp only [hd, if_true, List.flatten_cons, List.nil_append]
+      rcases List.mem_cons.1 h with rfl | h
+      · exact absurd hd hc
+      · exact mem_splitOn sep r c h hc
+    · simp only [hd, if_false]
+      cases hs : splitOn sep r with
+      | nil =>
+        rcases List.mem_cons.1 h with rfl | h
+        · simp
+        · have := mem_splitOn sep r c h hc
+          rw [hs] at this; simp at this
+      | cons x xs =>
+        rcases List.mem_cons.1 h with rfl | h
+        · simp
+        · have := mem_splitOn sep r c h hc
+          rw [hs] at this
+          simp only [List.flatten_cons, List.mem_append, List.cons_append, List.mem_cons] at this ⊢
+          rcases this with h1 | h1
+          · exact Or.inr (Or.inl h1)
+          · exact Or.inr (Or.inr h1)
+
+/-- a text with a character that is neither an ASCII digit nor `.` is not a decimal. -/
+theorem decValue_none_of_nondigit (t : Text) (c : Char) (hc : c ∈ t) (hd : isAsciiDigit c = false) (hdot : c ≠ '.') :
+    decValue t = none := by
+  have hm := mem_splitOn '.' t c hc hdot
+  unfold decValue
+  split
+  · rename_i a heq
+    rw [heq] at hm
+    simp only [List.flatten_cons, List.flatten_nil, List.append_nil] at hm
+    have : a.all isAsciiDigit = false := by
+      rw [List.all_eq_false]; exact ⟨c, hm, by simp [hd]⟩
+    simp [this]
+  · rename_i a b heq
+    rw [heq] at hm
+    simp only [List.flatten_cons, List.flatten_nil, List.append_nil] at hm
+    have : (a ++ b).all isAsciiDigit = false := by
+      rw [List.all_eq_false]; exact ⟨c, hm, by simp [hd]⟩
+    simp [this]
+  · rfl
+
+/-- every non-empty text of word characters (no operator / bracket / separator / quote character) that
+    contains a non-digit other than `.` — every A1 reference `$A$1`, `A1:B2`, `1:3`, `Table 1::A1` — is
+    `nameSafe`, unless it is TRUE or FALSE. -/
+theorem nameSafe_plain (t : Text) (hne : t ≠ []) (hp : ∀ c ∈ t, isDelim c = false ∧ c ≠ '\'')
+    (hnd : ∃ c ∈ t, isAsciiDigit c = false ∧ c ≠ '.') (h1 : t ≠ "TRUE".toList) (h2 : t ≠ "FALSE".toList) :
+    nameSafe t = true := by
+  obtain ⟨c, hc, hd, hdot⟩ := hnd
+  unfold nameSafe
+  simp only [Bool.and_eq_true, bne_iff_ne, ne_eq, Option.isNone_iff_eq_none]
+  exact ⟨⟨⟨wordOK_plain hne hp, decValue_none_of_nondigit t c hc hd hdot⟩, h1⟩, h2⟩
+
 theorem lexSafes_iff : ∀ ps : List PT, LexSafes ps = true ↔ ∀ p ∈ ps, LexSafe p = true
   | [] => by simp [LexSafes]
   | p :: ps => by simp [LexSafes, lexSafes_iff ps]
